@@ -617,4 +617,271 @@ theorem hexLex_hexlify {b : List Nat} (h : ∀ x ∈ b, x < 256) : Spec.hexLex (
     simp only [hexlify, Spec.hexLex, Bool.and_eq_true]
     exact ⟨⟨isHex_hexDigit _ (by omega), isHex_hexDigit _ (by omega)⟩, ih (fun y hy => h y (by simp [hy]))⟩
 
+
+/-! ### white-space facet of normalizedString / token -/
+
+def notTNR (c : Char) : Bool := c != '\t' && c != '\n' && c != '\r'
+
+theorem normaliseXsdString_id {s : Str} (h : s.all notTNR = true) : normaliseXsdString s = s := by
+  induction s with
+  | nil => rfl
+  | cons c s ih =>
+    simp only [List.all_cons, Bool.and_eq_true] at h
+    have hc := h.1
+    simp only [notTNR, Bool.and_eq_true, bne_iff_ne, ne_eq] at hc
+    simp only [normaliseXsdString, List.map_cons] at ih ⊢
+    rw [ih h.2]
+    simp [hc.1.1, hc.1.2, hc.2]
+
+theorem all_notTNR_normalise (s : Str) : (normaliseXsdString s).all notTNR = true := by
+  induction s with
+  | nil => rfl
+  | cons c s ih =>
+    simp only [normaliseXsdString, List.map_cons, List.all_cons, Bool.and_eq_true] at ih ⊢
+    refine ⟨?_, ih⟩
+    split <;> simp_all [notTNR]
+
+theorem normaliseXsdString_idem (s : Str) : normaliseXsdString (normaliseXsdString s) = normaliseXsdString s :=
+  normaliseXsdString_id (all_notTNR_normalise s)
+
+/-- shape of a collapsed token: no space at either end, no two spaces in a row -/
+def headNotSp (s : Str) : Bool := s.head? != some ' '
+def lastNotSp : Str → Bool
+  | [] => true
+  | [c] => c != ' '
+  | _ :: cs => lastNotSp cs
+
+theorem stripSpL_id {s : Str} (h : headNotSp s = true) : stripSpL s = s := by
+  cases s with
+  | nil => rfl
+  | cons c s =>
+    simp only [headNotSp, List.head?_cons, bne_iff_ne, ne_eq, Option.some.injEq] at h
+    simp [stripSpL, h]
+
+theorem stripSpR_id {s : Str} (h : lastNotSp s = true) : stripSpR s = s := by
+  induction s with
+  | nil => rfl
+  | cons c s ih =>
+    cases s with
+    | nil =>
+      simp only [lastNotSp, bne_iff_ne, ne_eq] at h
+      simp [stripSpR, h]
+    | cons d t =>
+      have := ih (by simpa [lastNotSp] using h)
+      rw [stripSpR, this]
+
+theorem collapseSpaces_id {s : Str} (h : Spec.noDoubleSpace s = true) : collapseSpaces s = s := by
+  induction s with
+  | nil => rfl
+  | cons c s ih =>
+    cases s with
+    | nil => simp [collapseSpaces]
+    | cons d t =>
+      simp only [Spec.noDoubleSpace, Bool.and_eq_true, Bool.not_eq_true'] at h
+      have iht := ih h.2
+      simp only [collapseSpaces, List.head?_cons] at iht ⊢
+      have : (c == ' ' && some d == some ' ') = false := by simpa using h.1
+      simp only [this, Bool.false_eq_true, if_false]
+      rw [iht]
+
+
+theorem headNotSp_stripSpL (s : Str) : headNotSp (stripSpL s) = true := by
+  induction s with
+  | nil => rfl
+  | cons c s ih =>
+    unfold stripSpL
+    split
+    · exact ih
+    · rename_i hc; simpa [headNotSp] using hc
+
+theorem stripSpR_cases (c : Char) (s : Str) :
+    (stripSpR (c :: s) = [] ∧ stripSpR s = [] ∧ c = ' ') ∨ (stripSpR (c :: s) = [c] ∧ stripSpR s = [] ∧ c ≠ ' ')
+      ∨ (stripSpR (c :: s) = c :: stripSpR s ∧ stripSpR s ≠ []) := by
+  cases hs : stripSpR s with
+  | nil =>
+    by_cases hc : c = ' '
+    · left; simp [stripSpR, hs, hc]
+    · right; left; simp [stripSpR, hs, hc]
+  | cons d t => right; right; simp [stripSpR, hs]
+
+theorem lastNotSp_stripSpR (s : Str) : lastNotSp (stripSpR s) = true := by
+  induction s with
+  | nil => rfl
+  | cons c s ih =>
+    rcases stripSpR_cases c s with ⟨h1, _, _⟩ | ⟨h1, _, hc⟩ | ⟨h1, hne⟩
+    · rw [h1]; rfl
+    · rw [h1]; simpa [lastNotSp] using hc
+    · rw [h1]
+      cases hr : stripSpR s with
+      | nil => exact absurd hr hne
+      | cons d t => rw [hr] at ih; simpa [lastNotSp] using ih
+
+theorem headNotSp_stripSpR {s : Str} (h : headNotSp s = true) : headNotSp (stripSpR s) = true := by
+  cases s with
+  | nil => rfl
+  | cons c s =>
+    rcases stripSpR_cases c s with ⟨h1, _, _⟩ | ⟨h1, _, _⟩ | ⟨h1, _⟩ <;> rw [h1]
+    · rfl
+    · simpa [headNotSp] using h
+    · simpa [headNotSp] using h
+
+theorem collapse_ne_nil : ∀ {s : Str}, s ≠ [] → collapseSpaces s ≠ [] := by
+  intro s
+  induction s with
+  | nil => intro h; exact absurd rfl h
+  | cons c s ih =>
+    intro _
+    simp only [collapseSpaces]
+    split
+    · rename_i hc
+      apply ih
+      intro e; subst e; simp at hc
+    · simp
+
+theorem noDoubleSpace_collapse (s : Str) : Spec.noDoubleSpace (collapseSpaces s) = true := by
+  induction s with
+  | nil => rfl
+  | cons c s ih =>
+    simp only [collapseSpaces]
+    split
+    · exact ih
+    · rename_i hc
+      cases s with
+      | nil => simp [collapseSpaces, Spec.noDoubleSpace]
+      | cons d t =>
+        -- the collapsed tail starts with `d` or (if `d` is a dropped space) with a space
+        simp only [List.head?_cons, Bool.and_eq_true, beq_iff_eq, Option.some.injEq, not_and] at hc
+        simp only [collapseSpaces] at ih ⊢
+        split
+        · rename_i hd
+          -- d = ' ' (dropped), so c ≠ ' '
+          have hd' : d = ' ' := by
+            simp only [Bool.and_eq_true, beq_iff_eq] at hd; exact hd.1
+          have hcs : c ≠ ' ' := fun e => hc e hd'
+          split at ih
+          · cases hr : collapseSpaces t with
+            | nil => rfl
+            | cons y z =>
+              rw [hr] at ih
+              simp only [Spec.noDoubleSpace, Bool.and_eq_true, Bool.not_eq_true', Bool.and_eq_false_iff]
+              exact ⟨Or.inl (by simpa using hcs), ih⟩
+          · rename_i hn; exact absurd hd hn
+        · rename_i hd
+          split at ih
+          · rename_i hp; exact absurd hp hd
+          · simp only [Spec.noDoubleSpace, Bool.and_eq_true, Bool.not_eq_true', Bool.and_eq_false_iff]
+            refine ⟨?_, ih⟩
+            by_cases hcs : c = ' '
+            · right; simpa using hc hcs
+            · left; simpa using hcs
+
+theorem headNotSp_collapse {s : Str} (h : headNotSp s = true) : headNotSp (collapseSpaces s) = true := by
+  cases s with
+  | nil => rfl
+  | cons c s =>
+    have hc : (c == ' ') = false := by simpa [headNotSp] using h
+    simp only [collapseSpaces, hc, Bool.false_and, Bool.false_eq_true, if_false]
+    simpa [headNotSp] using hc
+
+theorem lastNotSp_collapse : ∀ {s : Str}, lastNotSp s = true → lastNotSp (collapseSpaces s) = true := by
+  intro s
+  induction s with
+  | nil => intro _; rfl
+  | cons c s ih =>
+    intro h
+    cases s with
+    | nil => simpa [collapseSpaces] using h
+    | cons d t =>
+      have h' : lastNotSp (d :: t) = true := by simpa [lastNotSp] using h
+      have iht := ih h'
+      have hne : collapseSpaces (d :: t) ≠ [] := collapse_ne_nil (by simp)
+      rw [collapseSpaces]
+      split
+      · exact iht
+      · cases hr : collapseSpaces (d :: t) with
+        | nil => exact absurd hr hne
+        | cons y z => rw [hr] at iht; simpa [lastNotSp] using iht
+
+theorem all_stripSpL {p : Char → Bool} {s : Str} (h : s.all p = true) : (stripSpL s).all p = true := by
+  induction s with
+  | nil => rfl
+  | cons c s ih =>
+    simp only [List.all_cons, Bool.and_eq_true] at h
+    unfold stripSpL
+    split
+    · exact ih h.2
+    · simp [h.1, h.2]
+
+theorem all_stripSpR {p : Char → Bool} {s : Str} (h : s.all p = true) : (stripSpR s).all p = true := by
+  induction s with
+  | nil => rfl
+  | cons c s ih =>
+    simp only [List.all_cons, Bool.and_eq_true] at h
+    rcases stripSpR_cases c s with ⟨h1, _, _⟩ | ⟨h1, _, _⟩ | ⟨h1, _⟩ <;> rw [h1]
+    · rfl
+    · simp [h.1]
+    · simp [h.1, ih h.2]
+
+theorem all_collapse {p : Char → Bool} {s : Str} (h : s.all p = true) : (collapseSpaces s).all p = true := by
+  induction s with
+  | nil => rfl
+  | cons c s ih =>
+    simp only [List.all_cons, Bool.and_eq_true] at h
+    simp only [collapseSpaces]
+    split
+    · exact ih h.2
+    · simp [h.1, ih h.2]
+
+/-- the white-space processing is idempotent -/
+theorem postProcess_idem (dt : Option Dt) (s : Str) : postProcess dt (postProcess dt s) = postProcess dt s := by
+  unfold postProcess
+  split
+  · exact normaliseXsdString_idem s
+  · split
+    · have h1 := all_notTNR_normalise s
+      have h2 : (stripAndCollapse (normaliseXsdString s)).all notTNR = true :=
+        all_collapse (all_stripSpR (all_stripSpL h1))
+      rw [normaliseXsdString_id h2]
+      unfold stripAndCollapse
+      have hh : headNotSp (collapseSpaces (stripSpR (stripSpL (normaliseXsdString s)))) = true :=
+        headNotSp_collapse (headNotSp_stripSpR (headNotSp_stripSpL _))
+      have hl : lastNotSp (collapseSpaces (stripSpR (stripSpL (normaliseXsdString s)))) = true :=
+        lastNotSp_collapse (lastNotSp_stripSpR _)
+      rw [stripSpL_id hh, stripSpR_id hl, collapseSpaces_id (noDoubleSpace_collapse _)]
+    · rfl
+
+theorem lastNotSp_of_getLast : ∀ {s : Str}, (s.getLast? != some ' ') = true → lastNotSp s = true := by
+  intro s
+  induction s with
+  | nil => intro _; rfl
+  | cons c s ih =>
+    intro h
+    cases s with
+    | nil => simpa [lastNotSp] using h
+    | cons d t =>
+      simp only [lastNotSp]
+      apply ih
+      simpa [List.getLast?_cons_cons] using h
+
+theorem noTabNlCr_eq (s : Str) : Spec.noTabNlCr s = s.all notTNR := rfl
+
+/-- a form in the lexical space of a string-family datatype is left alone by the white-space processing -/
+theorem postProcess_valid {d : Dt} {s : Str} (hc : d.conv = .none) (hv : Spec.validLex d s = true) :
+    postProcess (some d) s = s := by
+  cases d <;> simp [Dt.conv] at hc
+  · rfl
+  · -- normalizedString
+    simp only [Spec.validLex, Bool.and_eq_true] at hv
+    simp only [postProcess]
+    exact normaliseXsdString_id (by rw [← noTabNlCr_eq]; exact hv.2)
+  · -- token
+    simp only [Spec.validLex, Spec.tokenLex, Bool.and_eq_true] at hv
+    obtain ⟨_, ⟨⟨⟨h1, h2⟩, h3⟩, h4⟩⟩ := hv
+    have : postProcess (some Dt.token) s = stripAndCollapse (normaliseXsdString s) := rfl
+    rw [this, normaliseXsdString_id (by rw [← noTabNlCr_eq]; exact h1)]
+    unfold stripAndCollapse
+    rw [stripSpL_id (by simpa [headNotSp] using h2), stripSpR_id (lastNotSp_of_getLast h3), collapseSpaces_id h4]
+  · rfl
+  · rfl
+
 end RV.C09
